@@ -2,8 +2,8 @@
 From PV Require Import Base.Prelude Model.Paths Model.Include Model.FilesInst Spec.SpliceSpec
   Spec.PathSpec Proofs.PathProofs Proofs.IncludeProofs Generated.T_files_p8.
 
-Lemma pin_newline_kind : include_newline_kind = 1.
-Proof. reflexivity. Qed.
+Lemma pin_newline_kind : include_newline_kind = 1 /\ include_cart_lines_kind = 1.
+Proof. split; reflexivity. Qed.
 
 (* ------------------------------------------------------------------ A. the splice equation *)
 Fixpoint collect (rs : list (result (list bytes))) : result (list bytes) :=
